@@ -543,14 +543,58 @@ impl SparqlTranslator {
                     match p {
                         ast::GraphPattern::Filter(expr) => filter_exprs.push(expr),
                         ast::GraphPattern::Optional(inner) => {
-                            let inner_plan = self.translate_graph_pattern(inner)?;
-                            if matches!(plan, LogicalOperator::Empty) {
-                                plan = inner_plan;
+                            // OPTIONAL { P FILTER F } is LeftJoin(left, P, F): the filter is the
+                            // condition of the left join and sees the variables of both sides
+                            let inner_filters: Vec<&ast::Expression> = match inner.as_ref() {
+                                ast::GraphPattern::Group(elems)
+                                    if !matches!(plan, LogicalOperator::Empty) =>
+                                {
+                                    elems
+                                        .iter()
+                                        .filter_map(|e| match e {
+                                            ast::GraphPattern::Filter(expr) => Some(expr),
+                                            _ => None,
+                                        })
+                                        .collect()
+                                }
+                                _ => Vec::new(),
+                            };
+                            if inner_filters.is_empty() {
+                                let inner_plan = self.translate_graph_pattern(inner)?;
+                                if matches!(plan, LogicalOperator::Empty) {
+                                    plan = inner_plan;
+                                } else {
+                                    plan = LogicalOperator::LeftJoin(LeftJoinOp {
+                                        left: Box::new(plan),
+                                        right: Box::new(inner_plan),
+                                        condition: None,
+                                    });
+                                }
                             } else {
+                                let ast::GraphPattern::Group(elems) = inner.as_ref() else {
+                                    unreachable!("filters were taken from a group");
+                                };
+                                let rest: Vec<ast::GraphPattern> = elems
+                                    .iter()
+                                    .filter(|e| !matches!(e, ast::GraphPattern::Filter(_)))
+                                    .cloned()
+                                    .collect();
+                                let inner_plan =
+                                    self.translate_graph_pattern(&ast::GraphPattern::Group(rest))?;
+                                let condition = inner_filters
+                                    .into_iter()
+                                    .map(|e| self.translate_expression(e))
+                                    .collect::<Result<Vec<_>>>()?
+                                    .into_iter()
+                                    .reduce(|acc, pred| LogicalExpression::Binary {
+                                        left: Box::new(acc),
+                                        op: BinaryOp::And,
+                                        right: Box::new(pred),
+                                    });
                                 plan = LogicalOperator::LeftJoin(LeftJoinOp {
                                     left: Box::new(plan),
                                     right: Box::new(inner_plan),
-                                    condition: None,
+                                    condition,
                                 });
                             }
                         }
